@@ -354,3 +354,16 @@ func (ex *Exec) atomicOwned(st *State, root types.Type, base string, site string
 		}
 	}
 }
+
+// externRLock: a shared (read) acquisition. For an operation declared `atomic <mu> owns ...` the read lock on its own
+// mutex is not ownership: the obligation atomic:exclusive fails. Otherwise it is tracked like a lock (order, release).
+func externRLock(ex *Exec, st *State, c *callCtx) {
+	tag, _, ok := lockIdent(c.args[0])
+	if !ok {
+		panic(subsetErr{"RLock on a mutex that is not a struct field"})
+	}
+	if ex.atom != nil && ex.atom.ok && tag == ex.atom.tag {
+		ex.record(st, fmt.Sprintf("%s/atomic:exclusive@%s", ex.rootName, c.site), "atomic", "false", "the operation's mutex is only read-locked: other operations holding the read lock run concurrently with this one")
+	}
+	externLock(ex, st, c)
+}
